@@ -165,6 +165,14 @@ impl Chunk {
         self.instructions.len()
     }
 
+    #[cfg(feature = "verif-hooks")]
+    pub(crate) fn verif_listing(&self) -> Vec<String> {
+        self.instructions
+            .iter()
+            .map(|(instr, _)| format!("{instr:?}"))
+            .collect()
+    }
+
     pub(crate) fn is_calling_function(&self, fn_name: &str) -> bool {
         self.instructions.iter().any(|(i, _)| match i {
             Instruction::CallFunction(s) => s == fn_name,
@@ -207,6 +215,10 @@ impl Chunk {
     /// Optimize bytecode by combining common instruction patterns to avoid pushing/popping
     /// so much on the stack in the VM when we can
     pub(crate) fn optimize(&mut self) {
+        #[cfg(feature = "verif-hooks")]
+        if crate::verif::skip_optimize() {
+            return;
+        }
         let mut old_instructions = std::mem::take(&mut self.instructions);
         let mut optimized = Vec::with_capacity(old_instructions.len());
         // Map from old instruction index to new instruction index
